@@ -121,6 +121,50 @@ def parse_tables(src_txt, word):
     return out
 
 
+def parse_marker(src_txt):
+    """The shape of stoGcMarkRange that the concrete marker model (Store/Model.v: step_back, cmark) follows.
+    Returns (interior_max, depth_max, problems): -1 = no bound in the source.  A bound that appears in the
+    source is surfaced as a parameter (the theorems mark_interior / mark_closure_complete are stated for the
+    unbounded marker and stop checking); any other shape is reported as not modelled."""
+    t = _strip_comments(src_txt)
+    m = re.search(r"\nstoGcMarkRange\(Pointer \*lo, Pointer \*hi, int check\)\s*\{(.*?)\n\}\n", t, re.S)
+    if not m:
+        return -1, -1, ["stoGcMarkRange not found"]
+    body = re.sub(r"\s+", " ", m.group(1))
+    problems = []
+
+    def value(name):
+        if re.fullmatch(r"\d+", name):
+            return int(name)
+        d = re.search(r"^\s*#\s*define\s+%s\s+\(?\s*(\d+)\s*\)?\s*$" % re.escape(name), t, re.M)
+        return int(d.group(1)) if d else None
+
+    interior = -1
+    if "while (QmInfoKind(qmtag) == QmFollow) qmtag = sect->info[--qmno];" not in body:
+        mm = re.search(r"for \((\w+) = 0; QmInfoKind\(qmtag\) == QmFollow; \1\+\+\) \{ if \(\1 == (\w+)\) break; "
+                       r"qmtag = sect->info\[--qmno\]; \} if \(QmInfoKind\(qmtag\) == QmFollow\) continue;", body)
+        v = value(mm.group(2)) if mm else None
+        if v is None:
+            problems.append("stoGcMarkRange: the loop that steps back over follow-quanta has a shape that is not modelled")
+        else:
+            interior = v
+    depth = -1
+    if "if (ptrEQ(pp, hi-1)) {" not in body:
+        mm = re.search(r"if \(ptrEQ\(pp, hi-1\) \|\| (\w+) == (\w+)\) \{", body)
+        v = value(mm.group(2)) if mm else None
+        ok = mm and re.search(r"%s\+\+; n \+= stoGcMarkRange\(plo, phi, \(int\) 0\); %s--;" % (mm.group(1), mm.group(1)), body)
+        if v is None or not ok:
+            problems.append("stoGcMarkRange: the descent into a marked object has a shape that is not modelled")
+        else:
+            depth = v
+    for must in ("for (pp = lo; ptrLT(pp, hi0); pp = (Pointer *) ptrOff((char *) pp, alignof(Pointer)))",
+                 "n += stoGcMarkRange(plo, phi, (int) 0);", "lo = plo; hi = phi; goto TailRecursion;",
+                 "if (QmInfoMark(qmtag)) continue;", "if (QmInfoKind(qmtag) == QmFreeFirst) {"):
+        if must not in body:
+            problems.append("stoGcMarkRange no longer contains `%s'" % must)
+    return interior, depth, problems
+
+
 def run_probe():
     d = C.scratch("c10probe")
     pc = os.path.join(d, "probe.c")
@@ -159,6 +203,7 @@ def params_text(pv, notes):
     for n in ("FixedSizeMax", "DivTableCount", "LgPgSize", "PgSize", "FixedSizePgGroup", "MixedSizePgGroup",
               "MixedSizeQuantum", "SplitSlack", "SectionHeadSize", "SectionInfoOff", "QmInfoSize",
               "MxMemHeadSize", "MxMemSize", "FxMemSize", "AlignMost", "QmCodeMask", "DivTableLen",
+              "GcInteriorMax", "GcMarkDepthMax",
               "PgCountMax", "QmSizeMax"):
         v = pv[n][0]
         lines.append("Definition %s : Z := %s." % (n, ("(%d)" % v) if v < 0 else str(v)))
@@ -195,6 +240,13 @@ def generate():
         unmodelled.append("MxMem body offset differs from MxMemHeadSize")
     if pv["QmKinds"] != [0x00, 0x40, 0x80, 0x20, 0xC0]:
         unmodelled.append("QmInfo bit layout changed")
+    gi, gd, probs = parse_marker(src)
+    pv["GcInteriorMax"], pv["GcMarkDepthMax"] = [gi], [gd]
+    unmodelled += probs
+    if gi >= 0:
+        notes.append("stoGcMarkRange gives up stepping back after %d quanta (parameter GcInteriorMax)" % gi)
+    if gd >= 0:
+        notes.append("stoGcMarkRange bounds the nesting of its calls at %d (parameter GcMarkDepthMax)" % gd)
     C.write_if_changed(GEN_V, params_text(pv, notes))
     _gen_cache["r"] = (pv, notes, unmodelled)
     return _gen_cache["r"]
@@ -1072,11 +1124,15 @@ def searcher_factory(rep, state):
         targeted.append(ops)
         for i in range(6):
             targeted.append(gen_random(rng, 1500, params, gc_rate=0.05, big=False))
+        targeted = [sanitize(o, params) for o in targeted]
+        # the marker: interior pointers at the offsets of its constants, deep and wide structures
+        targeted = [sanitize(o, params) for (nm, o) in targeted_histories(params) if nm in ("interior-far", "interior-offsets")] \
+            + [o for (nm, o) in deep_histories(params, True)] + targeted
         for ops in targeted:
-            ops = sanitize(ops, params)
             r = check_history(tools, params, ops, use_model=False)
             if r["viol"]:
-                small = shrink(tools, params, ops, "viol", budget=150)
+                deep = any(o[0] in ("K", "W") for o in ops)
+                small = shrink(tools, params, ops, "viol", budget=(20 if deep else 150), auto=deep)
                 r2 = check_history(tools, params, small, use_model=False)
                 v = r2["viol"] or r["viol"]
                 rep.violation("%s (found by the searcher after a proof obligation failed)" % v[0][0],
@@ -1216,6 +1272,19 @@ def targeted_histories(params):
         ops += [("g",)]                                               # now nothing does: it goes
         bid += 1
     hs.append(("interior-offsets", ops))
+    # 4b. the same for addresses far inside big pieces (more than 256 quanta from the piece header), with blocks
+    #     that start on a fresh run of pages so that nothing else happens to point into them
+    ops = [("a", 0, 64, 1), ("R", 1, 0, 0), ("a", 1, 57000, 2), ("R", 2, 1, 0), ("a", 2, 70000, 2), ("R", 3, 2, 0)]
+    bid = 3
+    for n in (300000, 140000, 1 << 20, 66000):
+        ts = true_size(n, params)
+        ops.append(("a", bid, n, 2))
+        for off in sorted({257 * q - h, 257 * q - h + 1, 65536, 65793, 100000, 131072, 262144, 262145, ts // 2, ts - 1}):
+            if 0 <= off < ts:
+                ops += [("R", 0, bid, off), ("g",), ("R", 0, -1, 0), ("p", 0, 2, bid, off), ("g",), ("p", 0, 2, -1, 0)]
+        ops.append(("g",))
+        bid += 1
+    hs.append(("interior-far", ops))
     # 5. a short chain built from single operations (compared with the model): next pointer in word 2,
     #    leaf pointer in a later word
     ops, n = [], 150
@@ -1269,8 +1338,10 @@ def _work(item):
         ops2 = ops           # already valid; the sanitiser's rules are for the explicit-collection streams
     else:
         ops2 = sanitize(ops, pv)
+    t0 = time.time()
     r = check_history(tools, pv, ops2, use_model=use_model, capacity=tag.startswith("auto"))
     r = dict(r)
+    r["elapsed"] = round(time.time() - t0, 1)
     r["hl"] = r["hl"][-15:]
     return tag, ops2, r
 
@@ -1301,7 +1372,10 @@ def run(rep, tier):
     quick = tier == "quick"
     streams = []
     for fn, ops in corpus_histories():
-        streams.append(("corpus:" + fn, ops, True))
+        # the concrete marker model scans every word of a marked piece: histories with pieces of more than
+        # 4 MiB are checked by the oracle only
+        huge = any(o[0] in ("a", "r") and o[2] > (1 << 22) for o in ops)
+        streams.append(("corpus:" + fn, ops, not huge))
     for name, ops in targeted_histories(pv):
         streams.append(("targeted:" + name, ops, True))
     # exhaustive short histories, split over the first step so that they run in parallel
@@ -1370,6 +1444,7 @@ def run(rep, tier):
                         gen_auto_garbage(rng, szs, k, na), False))
 
     totals = {}
+    slow = []
     knowns = {}
     auto_intervals = {}
     sizes = set()
@@ -1388,6 +1463,7 @@ def run(rep, tier):
                 totals[k] = totals.get(k, 0) + v
             sizes |= r["sizes"]
             model_lines += r["model_lines"]
+            slow.append((r.get("elapsed", 0), tag))
             if tag.startswith("auto-garbage"):
                 auto_intervals[tag] = r.get("intervals", [])[:12]
             if r["viol"] or r["mismatch"]:
@@ -1414,6 +1490,7 @@ def run(rep, tier):
                 input_distribution=totals,
                 samples=[script_text(sanitize(streams[len(corpus_histories())][1], pv)[:6]).replace("\n", "; ")],
                 allocations_between_implicit_collections=auto_intervals,
+                slowest_streams=sorted(slow, reverse=True)[:6],
                 proof_stage_s=round(t_proof, 1))
     rep.assume(
         "extraction: ExtrOcamlBasic only; Z, positive and nat are the extracted inductive types",
